@@ -70,6 +70,11 @@ POOL = {
     'sqrt_mV': [[{'units': 'mV', 'exponent': '0.5'}]],
     'w_rate': [[{'units': 'widget'}, {'units': 'second', 'exponent': '-1'}]],
     'volts': [[{'units': 'volt'}], [{'units': 'volt', 'multiplier': '1.000001'}]],
+    # a total exponent of zero: pint still evaluates the name (UndefinedUnitError where this store does not know it,
+    # a dimensionless unit where it does); 'widget' is a base unit only some stores define
+    'zero_pow': [[{'units': 'nosuch', 'exponent': '0'}], [{'units': 'widget', 'exponent': '0'}],
+                 [{'units': 'volt', 'exponent': '0'}], [{'units': 'mV'}, {'units': 'mV', 'exponent': '-1'}],
+                 [{'units': 'second', 'prefix': 'milli'}, {'units': 'gadget', 'exponent': '0.0'}]],
     'celsius': [[{'units': 'kelvin'}]],                    # unsupported name: ValueError
     'second': [[{'units': 'volt'}]],                       # built-in name: ValueError
 }
@@ -244,6 +249,27 @@ def corpus():
             ['factor', 2, 'mV', 0, 'mV'], ['def', 2, 'uA', [{'units': 'ampere', 'prefix': 'micro'}]],
             ['load', 'test_simple_odes.cellml', None], ['sing', 1], ['convert', 0, 'i', 'mV_per_ms', 'OUTPUT']]},
         gen_handler(__import__('random').Random(7)),
+        # model = code where the hand model of add_unit used to deviate (notes/reports/MODELFIX_Units.md), through the
+        # UnitStore API: an unknown name with a total exponent of zero is an UndefinedUnitError and the unit is NOT
+        # defined afterwards (probes: is_defined False, get_unit KeyError) — also a name only ANOTHER store of the same
+        # registry knows; a known name to the power zero gives a dimensionless unit; the NAME is tested before the
+        # expression is evaluated (ValueError for a built-in / known / unsupported name whatever the expression is)
+        {'kind': 'stores', 'ops': [
+            ['store', None], ['store', 0],
+            ['def', 0, 'x', [{'units': 'nosuch', 'exponent': '0'}]],
+            ['def', 0, 'one', [{'units': 'metre', 'exponent': '0'}]],
+            ['base', 1, 'widget'],
+            ['def', 1, 'w0', [{'units': 'widget', 'exponent': '0'}]],
+            ['def', 0, 'w0', [{'units': 'widget', 'exponent': '0'}]],
+            ['def', 0, 'y', [{'units': 'nosuch'}, {'units': 'nosuch', 'exponent': '-1'}]],
+            ['def', 0, 'mV', [{'units': 'volt', 'prefix': 'milli'}, {'units': 'nosuch', 'exponent': '0.0'}]],
+            ['def', 0, 'mV', [{'units': 'volt', 'prefix': 'milli'}, {'units': 'second', 'exponent': '0'}]],
+            ['def', 0, 'metre', [{'units': 'second', 'exponent': 'x'}]],
+            ['def', 0, 'mV', [{'units': 'nosuch', 'exponent': '0'}]],
+            ['def', 0, 'celsius', [{'units': 'nosuch', 'exponent': '0'}]],
+            ['def', 1, 'second', [{'units': 'nosuch'}]],
+            ['factor', 0, 'one', 1, 'w0'], ['factor', 0, 'x', 0, 'one'], ['factor', 0, 'mV', 1, 'volt'],
+            ['fmt', 0, 'x'], ['fmt', 0, 'one'], ['fmt', 1, 'w0']]},
         # two models with SEPARATE registries, both repaired; the second has the reciprocal form x = 1/(2 + U/(exp(U)-1))
         # (Pow(..., -1) branch, module constant ONE): every number of the repaired equations must carry a unit of its
         # OWN model's registry, and evaluate_units must work on both sides
